@@ -10,7 +10,7 @@ Open Scope string_scope.
 Open Scope list_scope.
 
 Definition step_rng (s : tstep) : range :=
-  match s with TSRoot r | TSAttr r | TSIdxStr r | TSIdxNum r | TSIdxOther r => r end.
+  match s with TSRoot r | TSAttr r | TSIdxStr r | TSIdxNum r | TSIdxOther r | TSIdxUnknown r => r end.
 
 (* what the parser guarantees: every part of an expression lies inside it *)
 Inductive wf_s : sexpr -> Prop :=
@@ -75,13 +75,14 @@ Proof. unfold inside, shift_end; cbn. intros (Hf & Hs & He). repeat split; [exac
 
 Lemma step_tokens_inside s o : inside (step_rng s) o -> Forall (fun t => inside (vk_rng t) o) (step_tokens s).
 Proof.
-  destruct s as [r|r|r|r|r]; cbn [step_rng step_tokens]; intros H.
+  destruct s as [r|r|r|r|r|r]; cbn [step_rng step_tokens]; intros H.
   - apply Forall_cons; [exact H|apply Forall_nil].
   - apply Forall_cons; [apply shift_start_inside; exact H|apply Forall_nil].
   - unfold idx_token. destruct (Z.ltb _ _); [|apply Forall_nil].
     apply Forall_cons; [apply shift_end_inside, shift_start_inside; exact H|apply Forall_nil].
   - unfold idx_token. destruct (Z.ltb _ _); [|apply Forall_nil].
     apply Forall_cons; [apply shift_end_inside, shift_start_inside; exact H|apply Forall_nil].
+  - apply Forall_nil.
   - apply Forall_nil.
 Qed.
 
